@@ -8,6 +8,8 @@ CHECKS = {
          "os.Open/io.Copy/sha256/hex are assumed contracts over the ghost file system; the scanners are assumed to report every referenced pointer; objpath is defined by the assumed contract of fs.(*Filesystem).ObjectPathname; output helpers (Print, Exit...) are assumed to have no effect on state; the pointer half (canonical / non-pointer classification in doFsckPointers) is not yet under contract."),
  "C15": ("Proof over the retry logic of the transfer queue: (*retryCounter).CanRetry (budget test is count < MaxRetries), canRetryObject/canRetryObjectLater (exact characterisation: budget left AND the error is retriable / retriable-later, with the server's time), every retry sink (the three enqueueRetry call sites of enqueueAndCollectRetriesFor and both sends on the retries channel in handleTransferResult are reached only with budget left and a retriable error; a deferred object carries the Retry-After time), the retry bookkeeping closure (server time wins, then explicit time), (batch).Concat (the batch attempted next only holds objects whose ready time has passed), and action expiry ((ActionSet).Get, (*Transfer).Rel, (*Action).IsExpiredWithin, tools.IsExpiredAtOrIn: an action expiring within five seconds is never handed out).",
          "time is an uninterpreted order (time_after/time_add); error classification is an assumed contract over uninterpreted predicates; overlap of two transfers of one object and real elapsed time are not decided; the exponential back-off bound of ReadyTime is not yet under contract."),
+ "C20": ("Proof over lfs.(*Hook).matchesCurrent against the ghost file system (a hook is called upgradable only if its whole normalised content is blank, the current text or one of the historical generated texts; a match only if it is the current text; an error is never combined with upgradable), Upgrade and Uninstall (the write / RemoveAll sinks are reached only for such a file, and RemoveAll gets exactly the hook path), Install (writes only under --force or when no file exists, otherwise goes through Upgrade) and write (the file becomes the current text plus LF).",
+         "os.Open/io.ReadAll/os.WriteFile/os.RemoveAll/os.Stat are assumed contracts over the ghost file system; normalisation (tools.Undent, TrimSpace) is uninterpreted; the generated texts are by definition Hook.Contents and Hook.upgradeables; the filter.lfs.* settings half (lfs.Attribute) and the idempotence / restore clauses are not yet under contract."),
  "C17": ("Proof over the real code of creds.(Creds).buffer: the buffer starts with exactly the two capability lines, nothing is written outside the per-item step, and every completed step appends exactly key=value LF for a value free of LF, NUL and (under protection) CR; an unsafe value returns an error and no buffer.",
          "bytes.Buffer.Write appends its argument (assumed); strings.Contains is an uninterpreted predicate; `git credential` itself is outside the proof."),
  "C10": ("Proof over lfshttp.newRequestForRetry (the request built for a redirect carries Authorization only if URL.Host is unchanged; https is never turned into http; header keys stay canonical), (*Client).DoWithRedirect (carries that to its result and bounds the chain), the recursion measures of (*lfshttp.Client).doWithRedirects and of the lfsapi doWithAuth/doWithCreds cycle (every turn extends the chain, which is cut at three requests), lfsapi.getCredURLForAPI (credentials are requested for the request's own scheme and host:port) and setRequestAuthFromURL (userinfo used only for the same origin).",
